@@ -12,8 +12,10 @@
 EXTENDS Directives, Json, IOUtils
 
 Rec == ndJsonDeserialize(IOEnv.TRACE)
-VARIABLES l, bad, tvse, mode, wrap, wx      \* wrap: "" | "or" | "and" with LevelFilter wx (FilterExt combinators around the EnvFilter)
-tvars == <<dvars, l, bad, tvse, mode, wrap, wx>>
+VARIABLES l, bad, tvse, mode, wrap, wx, fhint   \* wrap: "" | "or" | "and" with LevelFilter wx (FilterExt combinators around the EnvFilter)
+tvars == <<dvars, l, bad, tvse, mode, wrap, wx, fhint>>
+\* fhint: the max-level hint the real filter published (9 = none / not judged): in a stack where the filter is asked about
+\* everything (E-pair) it never lets through a span or event above that level (C08's clause, for EnvFilter)
 W(b, lvl) == CASE wrap = "or" -> b \/ lvl <= wx [] wrap = "and" -> b /\ lvl <= wx [] OTHER -> b
 
 AllStatic(D) == \A i \in DOMAIN D : IsStatic(D[i])
@@ -36,7 +38,9 @@ TvseCase(r) == r.t_ok /\ ~AllStatic(r.dirs)                   \* Targets accepte
 OpOk(r) ==
   CASE r.op = "span"  -> /\ spans[r.h].st = "none"
                          /\ r.reply \in {W(b, r.lvl) : b \in SpanAllowed([lvl |-> r.lvl, tgt |-> r.tgt, name |-> r.name], r.k)}
-    [] r.op = "event" -> r.reply = W(EventEnabled(EventMeta(r.lvl, r.tgt, r.k)), r.lvl)
+                         /\ (fhint # 9 /\ r.reply) => r.lvl <= fhint
+    [] r.op = "event" -> /\ r.reply = W(EventEnabled(EventMeta(r.lvl, r.tgt, r.k)), r.lvl)
+                         /\ (fhint # 9 /\ r.reply) => r.lvl <= fhint
     [] r.op = "all"   -> \A lvl \in 1..5, ti \in 1..4, kb \in BOOLEAN :
                             r.reply[AllIdx(lvl, ti, kb)] = W(EventEnabled(EventMeta(lvl, TGTS[ti], kb)), lvl)
     [] OTHER -> TRUE
@@ -52,28 +56,28 @@ Step(r) ==
     [] r.op = "close"  -> Close(r.h)
     [] OTHER -> UNCHANGED dvars
 
-TraceInit == /\ l = 0 /\ bad = << >> /\ tvse = << >> /\ mode = "idle" /\ wrap = "" /\ wx = 0
+TraceInit == /\ l = 0 /\ bad = << >> /\ tvse = << >> /\ mode = "idle" /\ wrap = "" /\ wx = 0 /\ fhint = 9
              /\ kind = "env" /\ dirs = << >> /\ spans = [h \in Handles |-> NoSpan] /\ entered = << >> /\ scope = << >>
 TraceNext ==
   /\ l < Len(Rec)
   /\ l' = l + 1
   /\ LET r == Rec[l + 1] IN
-       CASE r.ev = "reset" -> UNCHANGED <<dvars, bad, tvse, mode, wrap, wx>>
+       CASE r.ev = "reset" -> UNCHANGED <<dvars, bad, tvse, mode, wrap, wx, fhint>>
          [] r.ev = "case"  -> /\ bad' = (IF CaseOk(r) THEN bad ELSE Append(bad, l + 1))
                               /\ tvse' = tvse
-                              /\ UNCHANGED <<dvars, mode, wrap, wx>>
+                              /\ UNCHANGED <<dvars, mode, wrap, wx, fhint>>
          \* EnvFilter::new(s) = the directives of s, or the default directive `error` when s has none
          [] r.ev = "start" -> /\ dirs' = (IF r.cfg = "E-new" /\ r.dirs = << >> THEN << [t |-> "", s |-> "", f |-> "", v |-> "", l |-> 1] >> ELSE r.dirs)
                               \* a Targets that accepted span syntax is judged as the EnvFilter it claims to agree with
                               /\ kind' = (IF r.kind = "targets" /\ r.tv THEN "env" ELSE r.kind)
                               /\ mode' = (IF r.kind = "targets" /\ r.tv THEN "tvse" ELSE "normal")
                               /\ spans' = [h \in Handles |-> NoSpan] /\ entered' = << >> /\ scope' = << >>
-                              /\ wrap' = r.wrap /\ wx' = r.x
+                              /\ wrap' = r.wrap /\ wx' = r.x /\ fhint' = r.hint
                               /\ UNCHANGED <<bad, tvse>>
          [] r.ev = "op"    -> /\ bad' = (IF mode = "tvse" \/ OpOk(r) THEN bad ELSE Append(bad, l + 1))
                               /\ tvse' = (IF mode = "tvse" /\ ~OpOk(r) THEN Append(tvse, l + 1) ELSE tvse)
                               /\ Step(r)
-                              /\ mode' = mode /\ UNCHANGED <<wrap, wx>>
+                              /\ mode' = mode /\ UNCHANGED <<wrap, wx, fhint>>
 TraceSpec == TraceInit /\ [][TraceNext]_tvars
 Report == l = Len(Rec) => PrintT("@@BAD " \o ToJson(bad)) /\ PrintT("@@TVSE " \o ToJson(tvse))
 Consumed == IF TLCGet("stats").diameter = Len(Rec) + 1 THEN TRUE
